@@ -154,3 +154,47 @@ extern "C" void h_reify()
   }
   WITNESS_POINT();
 }
+
+// ---------------------------------------------------------------------------------------------------------------
+// product (grid) encoding of at-most-one / exactly-one, used for 4 or more arguments: n fresh variables, positive literals.
+//   PARAM(0) = OP (3 at-most-one, 4 exactly-one), PARAM(1) = n (4..6)
+// (->) for ALL total assignments: a model with the returned literal true has at most / exactly one argument true.
+// (<-) for ALL assignments of the n arguments an extension to the auxiliary variables is constructed from the shape of
+//      the encoding (row / column selectors of the true argument) and must be a model in which the returned literal has
+//      the value of the cardinality formula.
+#define MAXW 24
+extern "C" void h_grid()
+{
+  OP = PARAM(0);
+  const int n = PARAM(1);
+  sat_core &s = *new sat_core();
+  lit args[8];
+  std::vector<lit> ls;
+  for (int i = 0; i < n; i++) { args[i] = lit(s.new_var()); ls.push_back(args[i]); }
+  const size_t nv0 = s.assigns.size(); // 1 + n
+  const lit r = OP == 3 ? s.new_at_most_one(ls) : s.new_exct_one(ls);
+  CHECK(s.assigns.size() <= MAXW, "harness bound on auxiliary variables");
+  bool pr = s.propagate();
+  CHECK(pr, "building the construct leaves the network consistent");
+  bool a[MAXW];
+  for (int i = 0; i < MAXW; i++) a[i] = nondet_bool();
+  int cnt = 0;
+  for (int i = 0; i < n; i++) cnt += lval(a, args[i]) ? 1 : 0;
+  if (is_model(s, a)) CHECK(!lval(a, r) || (OP == 3 ? cnt <= 1 : cnt == 1), "returned literal true forces the cardinality constraint (grid encoding)");
+  // (<-) construct the extension.  Variables are created in this order: row selectors u_0..u_{ps-1}, column selectors
+  // v_0..v_{qs-1}, the at-most-one literal of the rows, the at-most-one literal of the columns, their conjunction.
+  int ps = 1; while (ps * ps < n) ps++;
+  const int qs = (n + ps - 1) / ps;
+  bool o[MAXW];
+  for (int i = 0; i < MAXW; i++) o[i] = i < (int)nv0 ? a[i] : false;
+  o[0] = false;
+  int k = -1, c2 = 0;
+  for (int i = 0; i < n; i++) if (o[variable(args[i])]) { c2++; k = i; }
+  const bool amo = c2 <= 1;
+  for (int i = 0; i < ps; i++) o[nv0 + i] = amo && k >= 0 && i == k / qs;
+  for (int j = 0; j < qs; j++) o[nv0 + ps + j] = amo && k >= 0 && j == k % qs;
+  for (size_t v = nv0 + ps + qs; v < MAXW; v++) o[v] = (OP == 3 ? amo : c2 == 1); // the three reification variables: true iff the (whole) constraint holds
+  CHECK(is_model(s, o), "every assignment of the arguments extends to a model (grid encoding excludes nothing)");
+  CHECK(lval(o, r) == (OP == 3 ? amo : c2 == 1), "the extension gives the returned literal the value of the cardinality formula (grid encoding)");
+  WITNESS_POINT();
+}
